@@ -40,6 +40,7 @@ type SolveResult struct {
 	Relaxed  bool    `json:"relaxed_model,omitempty"` // sat only for the relaxed query: candidate model
 	Syms     map[string]string `json:"-"`
 	Output   string  `json:"-"`
+	Where    string  `json:"-"` // source position (file:line) of the instruction the obligation belongs to
 }
 
 type solverSpec struct {
@@ -260,7 +261,7 @@ func solveAll(x *Exec, dir string, timeoutS int, par int, filter func(*Obligatio
 			relaxed = filepath.Join(dir, fmt.Sprintf("%s_%03d.relaxed.smt2", sanitize(x.short), i))
 			os.WriteFile(relaxed, []byte(rt), 0o644)
 		}
-		r := &SolveResult{Name: o.Name, Kind: o.Kind, Props: o.Props, SMTBytes: len(text), File: file, Canary: o.Canary, Safety: o.Safety, Clause: o.Clause, Line: o.Line, Func: o.Func, Syms: o.Syms}
+		r := &SolveResult{Name: o.Name, Kind: o.Kind, Props: o.Props, SMTBytes: len(text), File: file, Canary: o.Canary, Safety: o.Safety, Clause: o.Clause, Line: o.Line, Func: o.Func, Syms: o.Syms, Where: x.shortPos(o.Pos)}
 		results = append(results, r)
 		wg.Add(1)
 		sem <- struct{}{}
